@@ -592,6 +592,8 @@ def gen_config(rng, d, kind, nmax=220):
         cfg['boundaryshape'] = rng.choice(['cylinder', 'box'])
         if rng.random() < 0.04:
             cfg['boundarywidth'] = 40.0                      # radius <= 0: Cylinder's assertion
+        if rng.random() < 0.02:
+            cfg['boundaryshape'] = rng.choice(['sphere', 'Box', 'cyl'])   # must be refused (ValueError)
     else:
         cfg['linear'] = rng.random() < 0.4
         if rng.random() < 0.3:
@@ -667,6 +669,7 @@ def run_config(d, cfg):
                 obs('set', d, e)
                 obs('after-refusal', d)
     d._c13_trace = trace
+    obs('before', d)
     try:
         gen = d.monopole if cfg['kind'] == 'mono' else d.periodicarray
         if cfg.get('noret'):
@@ -1193,6 +1196,9 @@ def _correspond_params(ctx, np, d, cfg, res, ucell, label, info, stats, center, 
         return a.shape == b.shape and float(np.abs(a - b).max()) <= 1e-9 * max(1.0, float(np.abs(b).max()))
     trace = list(getattr(d, '_c13_trace', []))
     state = _fl(f[0][3:])
+    if cfg.get('init') is None:
+        # shared object: what it held before the call is part of its (unrecorded) past: take the observation
+        state = next((t_[2] for t_ in trace if t_[0] == 'before' and t_[1] == 'ok'), state)
     steps = []                                            # (kind, model reply) in order
     if cfg.get('init') is not None:
         steps.append(('ctor', 'ok ' + f[0][3:]))
@@ -1217,7 +1223,9 @@ def _correspond_params(ctx, np, d, cfg, res, ucell, label, info, stats, center, 
                                  f'(history: init={cfg.get("init")}, set_shift={cfg.get("setshift")}, call={call})', info)
                     return False
             else:
-                later = kind_ == 'gen' and res[0] == 'err' and res[1] not in ('value', 'index')
+                later = kind_ == 'gen' and res[0] == 'err' and (
+                    res[1] not in ('value', 'index')
+                    or (cfg['kind'] == 'mono' and cfg.get('boundaryshape', 'cylinder') not in ('cylinder', 'box')))
                 if not later:
                     ctx.disagree('shift:refusal', f'{label}: {kind_} raised {ob[2]} '
                                  f'({res[2] if res[0] == "err" else ""}), the model resolves the shift to {mv}', info)
@@ -1248,7 +1256,7 @@ def _correspond_params(ctx, np, d, cfg, res, ucell, label, info, stats, center, 
         ctx.disagree('params:harness', f'{label}: centre / width handed to the model {np.asarray(center).tolist()}, {width} '
                      f'differ from the model\'s own conversion {mc.tolist()}, {mw}', info)
         return False
-    return not (res[0] == 'err' and res[1] in ('index', 'value'))
+    return True
 
 
 def _correspond_region(ctx, np, raw, d, cfg, res, label, info, stats):
@@ -1891,8 +1899,8 @@ def _disregistry_check(ctx, np, d, base, disl, kind, cfg, info, label, ucell_a=1
         return
     ya, yb = y[y > cn].min(), y[y < cn].max()
     h = (ya - yb) / 2
-    if min(ya - cn, cn - yb) < 0.1 * h or h < 1e-4:
-        return                                            # an atomic plane (nearly) on the slip plane: not the clause's case
+    if min(ya - cn, cn - yb) < 0.1 * h or h < 1e-4 or float(np.abs(y - cn).min()) < 0.1 * h:
+        return                                            # an atomic plane (nearly or exactly) on the slip plane: not the clause's case
     if kind == 'array' and abs(cn) > 1e-12:
         return                                            # (arrays: the cut of the linear field is tied to the mid-plane)
     # the point handed to disregistry(): default (only when the plane passes through the origin), the centre, or
@@ -1924,6 +1932,30 @@ def _disregistry_check(ctx, np, d, base, disl, kind, cfg, info, label, ucell_a=1
     xb = xs[np.isclose(y, yb)]
     # columns exist on both sides of the slip plane only in the common range (np.interp holds the end values beyond)
     ua, ub = np.unique(np.round(xa, 7)), np.unique(np.round(xb, 7))
+    # the definition, column by column: at an atomic column of one plane the disregistry is that column's own mean
+    # displacement against the other plane's displacement interpolated between ITS OWN columns (above minus below)
+    # (column coordinates: the exact values, those equal up to rounding noise merged)
+    ea = np.array([xa[np.abs(xa - t) < 1e-6].mean() for t in ua])
+    eb = np.array([xb[np.abs(xb - t) < 1e-6].mean() for t in ub])
+    if len(ea) >= 2 and len(eb) >= 2 and min(np.diff(ea).min(), np.diff(eb).min()) > 1e-3:
+        try:
+            dall = np.asarray(am.displacement(base, disl))
+        except Exception as e:  # noqa
+            ctx.violate('disregistry:raises', f'{label}: displacement(base, disl) raised {type(e).__name__}: {e}', info)
+            return
+        pa, pb = np.isclose(y, ya), np.isclose(y, yb)
+        mean_a = np.array([dall[pa & (np.abs(xs - t) < 1e-6)].mean(axis=0) for t in ea])
+        mean_b = np.array([dall[pb & (np.abs(xs - t) < 1e-6)].mean(axis=0) for t in eb])
+        tolv = 1e-8 * max(1.0, float(np.abs(dall).max()))
+        for i_, t in enumerate(np.asarray(x)):
+            va = np.array([np.interp(t, ea, mean_a[:, j]) for j in range(3)])
+            vb = np.array([np.interp(t, eb, mean_b[:, j]) for j in range(3)])
+            if float(np.abs(np.asarray(dr)[i_] - (va - vb)).max()) > tolv:
+                ctx.violate('disregistry:definition', f'{label}: disregistry({kwp}) at the atomic column x = {t:.6f} is '
+                            f'{np.asarray(dr)[i_].tolist()}; displacement of the plane above ({ya:.4f}) minus that of the '
+                            f'plane below ({yb:.4f}), each taken at / interpolated between its own atomic columns, is '
+                            f'{(va - vb).tolist()}', info)
+                return
     k = 1 if kind == 'array' else 0
     if len(ua) < 2 * k + 2 or len(ub) < 2 * k + 2:
         return
@@ -2133,6 +2165,10 @@ def _oracle_mono(ctx, np, case, raw, ucell, d, cfg, res, info, label):
     if cfg.get('sm_form'):
         ctx.violate(key + ':bad-multipliers-accepted', f'{label}: sizemults = {_sm_form(cfg["sizemults"], cfg["sm_form"])} '
                     f'is not three positive integers, yet a system was generated', info)
+        return
+    if cfg.get('boundaryshape', 'cylinder') not in ('cylinder', 'box'):
+        ctx.violate(key + ':bad-shape-accepted', f'{label}: boundaryshape {cfg["boundaryshape"]!r} is neither "cylinder" nor '
+                    f'"box", yet a system was generated', info)
         return
     qs, center, width = _resolved(d, cfg, ucell)
     V = abs(np.linalg.det(np.asarray(base.box.vects)))
@@ -2425,12 +2461,23 @@ def _oracle_refusal(ctx, np, d, cfg, res, ucell, info, label):
         ctx.violate(kind + ':odd-accepted', f'{label}: invalid multipliers {sm} {cfg.get("sm_form", "")} did not raise '
                     f'TypeError but {cls}: {res[2]}', info)
         return
+    if cls == 'value' and kind == 'mono' and cfg.get('boundaryshape', 'cylinder') not in ('cylinder', 'box'):
+        try:
+            _expected_shift(np, d, cfg)
+            return                                        # 'boundaryshape must be "cylinder" or "box"'
+        except _Refuse:
+            return
     if cls in ('value', 'index'):
-        # the only documented refusals of these classes concern the way the shift is named in the call
+        # the only other documented refusals of these classes concern the way the shift is named in the call
         try:
             _expected_shift(np, d, cfg)
         except _Refuse as r:
             if r.cls == cls and r.where == 'call':
+                # a refused call must leave the object as it was
+                tr = {t_[0]: t_ for t_ in getattr(d, '_c13_trace', []) if t_[1] == 'ok'}
+                if 'before' in tr and 'after-refusal' in tr and tr['before'][2] != tr['after-refusal'][2]:
+                    ctx.violate(kind + ':refused-call-changed-shift', f'{label}: the refused call changed the shift of the '
+                                f'object from {tr["before"][2]} to {tr["after-refusal"][2]}', info)
                 return
         ctx.violate(kind + ':refusal', f'{label}: unexpected refusal {cls}: {res[2]}', info)
         return
@@ -2544,6 +2591,14 @@ def _search_case(ctx, case, raw, ncfg, stats):
         ctx.stats.case('search:refused', canon, nontrivial=False)
         if not isinstance(e, (ValueError, AssertionError)):
             ctx.violate('cells:exception', f'{label}: Dislocation(...) raised {type(e).__name__}: {msg[:120]}', info)
+        elif not ('Stroh' in msg or 'eigen' in msg.lower()) and \
+                (not ('not aligned' in msg) or (raw['m'], raw['n']) == ('y', 'z')):
+            # the generated systems are valid (line and Burgers vector in the plane, lattice directions within the
+            # index bound): the only documented refusal is that of a rotated cell that cannot be aligned with the axes
+            # of the solution, which cannot happen for the default assignment m = y, n = z (line along a, in-plane vector
+            # in the a-b plane: always a LAMMPS-compatible cell)
+            ctx.violate('cells:refusal-unjustified', f'{label}: Dislocation(...) refused a valid slip system: '
+                        f'{type(e).__name__}: {msg[:160]}', info)
         elif case.get('hex4'):
             # the same slip system in 3-index notation: a refusal cannot depend on the notation
             try:
@@ -2572,7 +2627,7 @@ def _search_case(ctx, case, raw, ncfg, stats):
             return a_.shape != b_.shape or float(np.abs(a_ - b_).max()) > tol_
         if uv4.shape != (3, 4) or uv3.shape != (3, 3) or np.abs(uv4[:, :3].sum(axis=1)).max() > 1e-9 \
                 or differ([[r[0] - r[2], r[1] - r[2], r[3]] for r in uv4], uv3, 1e-9) \
-                or differ(d.uvws_prim, d3.uvws_prim, 0.0) \
+                or differ(d.uvws_prim, d3.uvws_prim, 1e-9) \
                 or differ(d.rcell.box.vects, d3.rcell.box.vects, 1e-9 * sc_) \
                 or differ(d.shifts, d3.shifts, 1e-9 * sc_):
             ctx.violate('cells:hex4', f'{label}: 4-index input gives uvws {uv4.tolist()}, rcell {np.asarray(d.rcell.box.vects).tolist()}; '
